@@ -10,7 +10,7 @@ usage: selftest/benign.py [--budget S] [substr ...]
 """
 import glob, json, os, shutil, subprocess, sys, tempfile
 VERIF = os.path.dirname(os.path.dirname(os.path.abspath(__file__)))
-WT = '/var/tmp/fiddle-sens'
+WT = '/var/tmp/fiddle-benign'
 sys.path.insert(0, VERIF)
 from fsim import registry
 
